@@ -85,17 +85,23 @@ func (d *tDecoder) Decode(b []byte, base unsafe.Pointer, sd *structDesc, maxdept
 
 	i := 0
 	for {
+		if i >= len(b) {
+			return i, io.ErrShortBuffer // no tSTOP before the end of input
+		}
 		tp := ttype(b[i])
 		i++
 		if tp == tSTOP {
 			break
+		}
+		if len(b)-i < 2 {
+			return i, io.ErrShortBuffer
 		}
 		fid := binary.BigEndian.Uint16(b[i:])
 		i += 2
 
 		f := sd.GetField(fid)
 		if f == nil || f.Type.WT != tp {
-			n, err := thrift.Binary.Skip(b[i:], thrift.TType(tp))
+			n, err := skipUnknownField(b[i:], tp)
 			if err != nil {
 				return i, fmt.Errorf("skip unknown field %d of struct %s err: %w", fid, sd.rt.String(), err)
 			}
@@ -110,6 +116,9 @@ func (d *tDecoder) Decode(b []byte, base unsafe.Pointer, sd *structDesc, maxdept
 		t := f.Type
 		p = d.mallocIfPointer(t, p)
 		if t.FixedSize > 0 {
+			if len(b)-i < t.FixedSize {
+				return i, io.ErrShortBuffer
+			}
 			i += decodeFixedSizeTypes(t.T, b[i:], p)
 		} else {
 			var n int
@@ -137,6 +146,21 @@ func (d *tDecoder) Decode(b []byte, base unsafe.Pointer, sd *structDesc, maxdept
 		*(*[]byte)(unsafe.Add(base, sd.unknownFieldsOffset)) = ufs.Copy(b)
 	}
 	return i, nil
+}
+
+// skipUnknownField returns the encoded length of a value of wire type tp at the start of b.
+// The skipper is written for speed on trusted input: on malformed input it may index its tables
+// with a negative type code (panic) or report a length beyond the end of b; both are turned into errors.
+func skipUnknownField(b []byte, tp ttype) (n int, err error) {
+	defer func() {
+		if r := recover(); r != nil {
+			n, err = 0, thrift.NewProtocolException(thrift.INVALID_DATA, fmt.Sprintf("malformed data of type %d", tp))
+		}
+	}()
+	if n, err = thrift.Binary.Skip(b, thrift.TType(tp)); err == nil && n > len(b) {
+		return 0, io.ErrShortBuffer
+	}
+	return n, err
 }
 
 func decodeFixedSizeTypes(t ttype, b []byte, p unsafe.Pointer) int {
@@ -216,6 +240,9 @@ func (d *tDecoder) decodeType(t *tType, b []byte, p unsafe.Pointer, maxdepth int
 		return 0, errDepthLimitExceeded
 	}
 	if t.FixedSize > 0 {
+		if len(b) < t.FixedSize {
+			return 0, io.ErrShortBuffer
+		}
 		return decodeFixedSizeTypes(t.T, b, p), nil
 	}
 	switch t.T {
@@ -315,6 +342,10 @@ func (d *tDecoder) decodeType(t *tType, b []byte, p unsafe.Pointer, maxdepth int
 				tmp = sliceK
 			}
 			if kt.FixedSize > 0 {
+				if len(b)-i < kt.FixedSize {
+					err = io.ErrShortBuffer
+					break
+				}
 				i += decodeFixedSizeTypes(kt.T, b[i:], tmp)
 			} else {
 				if n, err = d.decodeType(kt, b[i:], tmp, maxdepth-1); err != nil {
@@ -336,6 +367,10 @@ func (d *tDecoder) decodeType(t *tType, b []byte, p unsafe.Pointer, maxdepth int
 				v.SetZero()
 			}
 			if vt.FixedSize > 0 {
+				if len(b)-i < vt.FixedSize {
+					err = io.ErrShortBuffer
+					break
+				}
 				i += decodeFixedSizeTypes(vt.T, b[i:], tmp)
 			} else {
 				if n, err = d.decodeType(vt, b[i:], tmp, maxdepth-1); err != nil {
